@@ -89,10 +89,10 @@ Proof.
     destruct (decide (d = fd_denom m)) as [->|]; [auto|]. rewrite lookup_insert_ne by done. auto. }
   destruct (if dep_ok && hook_nonempty (fd_hook m) then run_hook c s3 (fd_hook m) else (s3, true))
     as [s4 hook_ok] eqn:Hhook.
-  assert (F4 : frame_bk_seqs s3 s4).
-  { destruct (dep_ok && hook_nonempty (fd_hook m)); [eapply run_hook_frame; eauto|].
-    injection Hhook as <- <-. apply frame_bk_weaken, frame_bk_refl. }
-  destruct F4 as (F4a & F4b & F4c & F4d & F4e & F4f & F4g & F4h).
+  assert (F4c : pairs s4 = pairs s3).
+  { destruct (dep_ok && hook_nonempty (fd_hook m)).
+    - apply run_hook_frame in Hhook as ((_ & Hp & _) & _). done.
+    - by injection Hhook as <- <-. }
   destruct (dep_ok && hook_ok) eqn:Hok.
   { intros [= <- <-]. cbn. rewrite F4c. exact F3. }
   intros Hrest. apply bind_Some in Hrest as (s5 & Hs5 & Hrest).
@@ -123,7 +123,7 @@ Proof.
     pose proof Hinv as [I1 I2 I3 I4 I5 I6 I7 I8 I9].
     apply (l2_inv_build c s);
       [done | by rewrite Hprm | rewrite Hprm, Hvs; by apply (l2_inv_vinv c) | lia
-      | destruct Hrest as [(_ & _ & E)|(_ & E & _)]; rewrite E; lia | by rewrite Hinfo |].
+      | destruct Hrest as [(_ & (ws & _ & E & _))|(_ & E & _)]; rewrite E; lia | by rewrite Hinfo |].
     intros d v Hq. destruct (Hp d v Hq) as [Hq1 | ->]; [by eapply I9|].
     unfold fdep_valid in Hv. rewrite !andb_true_iff in Hv. destruct Hv as (((((_ & _) & Hc) & _) & _) & _).
     unfold coin_valid in Hc. by apply andb_true_iff in Hc as [? _].
